@@ -44,10 +44,70 @@ class Discharger:
         self._facts = {}
 
     def facts(self, info):
-        key = info.f.qual
+        return self.facts_of(info.f)
+
+    def facts_of(self, f):
+        key = f.qual
         if key not in self._facts:
-            self._facts[key] = guard_facts(info.f, noreturn_pred(self.ctx, info.f))
+            self._facts[key] = {}          # cycle guard: a recursive caller contributes no entry facts
+            entry = self.entry_facts(f)
+            self._facts[key] = guard_facts(f, noreturn_pred(self.ctx, f), entry)
         return self._facts[key]
+
+    def entry_facts(self, f):
+        """facts about the parameters of a private module-level function that hold at every one of its call sites
+        (it is only ever called directly, from its own package): the guard of the caller still dominates the
+        construct after an 'extract function' refactoring."""
+        if f.cls is not None or f.outer is not None or not f.name.startswith("_") or f.name.startswith("__"):
+            return frozenset()
+        db = self.ctx.db
+        calls = []
+        for g in db.funcs.values():
+            for n in own_nodes(g.node):
+                if isinstance(n, ast.Name) and n.id == f.name and isinstance(n.ctx, ast.Load):
+                    r = db.resolve_dotted(g.module, n)
+                    if r and r[0] == "func" and r[1] is f:
+                        calls.append((g, n))
+                elif isinstance(n, ast.Attribute) and n.attr == f.name:
+                    r = db.resolve_dotted(g.module, n)
+                    if r and r[0] == "func" and r[1] is f:
+                        calls.append((g, n))
+        for m in db.modules.values():
+            # a module-level reference (registry, decorator, re-export in a table) makes the callers unknown
+            for st in m.tree.body:
+                if isinstance(st, (ast.FunctionDef, ast.AsyncFunctionDef, ast.ClassDef, ast.Import, ast.ImportFrom)):
+                    continue
+                for n in ast.walk(st):
+                    if isinstance(n, ast.Name) and n.id == f.name:
+                        return frozenset()
+        if not calls:
+            return frozenset()
+        common = None
+        for g, ref in calls:
+            call = None
+            for n in own_nodes(g.node):
+                if isinstance(n, ast.Call) and n.func is ref:
+                    call = n
+            if call is None or any(isinstance(a, ast.Starred) for a in call.args) or any(k.arg is None for k in call.keywords):
+                return frozenset()
+            at = self.facts_of(g)
+            facts = at.get(id(call))
+            if facts is None:
+                continue                      # unreachable call site
+            bind = {}
+            for i, a in enumerate(call.args):
+                if i < len(f.posparams) and isinstance(a, ast.Name):
+                    bind[a.id] = f.posparams[i]
+            for k in call.keywords:
+                if isinstance(k.value, ast.Name) and k.arg in f.params:
+                    bind[k.value.id] = k.arg
+            here = set()
+            for fact in facts:
+                # string length facts (strings are immutable) and not-None facts of the bound name itself
+                if fact[0] in ("strge", "notnone") and isinstance(fact[1], str) and fact[1] in bind:
+                    here.add((fact[0], bind[fact[1]]) + tuple(fact[2:]))
+            common = here if common is None else (common & here)
+        return frozenset(common or ())
 
     def run(self):
         for info, s in self.esc.all_sites():
